@@ -86,6 +86,15 @@ def ordered_ops(items):
 def local_rule(F, rep, T):
     n_assign = 0
     reported = set()
+    verdicts = {}       # key -> [ok, text, where]: a template is evaluated once per alternative of its code; one bad alternative decides
+    real_rep = rep
+
+    class _Merge:
+        def ob(self, rule, key, ok, text, where=None, sites=1):
+            v = verdicts.get(key)
+            if v is None or (v[0] and not ok):
+                verdicts[key] = [bool(ok), text, where]
+    rep = _Merge()
     for label, items, result, arm in T.all_templates():
         where = line_of(arm) if arm else None
         lins = irp.linearisations(items)
@@ -118,7 +127,7 @@ def local_rule(F, rep, T):
                 for tgt, how, at in targets:
                     n_assign += 1
                     key = "%s|%s" % (label, irtpl.show_val(tgt).split("#")[0])
-                    if key in reported:
+                    if key in verdicts and not verdicts[key][0]:
                         continue
                     if tgt[0] == "fresh":
                         di = declared.get(tgt)
@@ -147,7 +156,7 @@ def local_rule(F, rep, T):
                         reported.add(key)
                         if di is not None and di <= i:
                             rep.ob("IRP-local", key, True, "resolver variable %s is declared in template %s before it is %s" % (fld, label, how), at)
-                        elif fld in BINDERS:
+                        elif fld in BINDERS and not BINDERS[fld].startswith(label + " "):
                             rep.ob("IRP-local", key, True, "resolver variable %s: declared by %s" % (fld, BINDERS[fld]), at)
                         else:
                             rep.ob("IRP-local", key, False,
@@ -162,14 +171,17 @@ def local_rule(F, rep, T):
                                                                         else "supplied by the caller (checked at the call sites: If / Case results)"), at)
         # result variable of expression arms must be declared in the arm
         if result is not None and result[0] == "fresh":
-            lin = lins[0] if lins else []
-            ops = [it for it, _ in irp.flat_ops(lin)]
-            d = defines_of(T, ops)
             key = "%s|result" % label
-            if key not in reported and ("%s|%s" % (label, result[1])) not in reported:
-                rep.ob("IRP-local", key, result in d, "the result temporary `%s` of %s is %s" % (
-                    result[1], label, "declared by %s" % d.get(result) if result in d else "never declared (a Lua global)"), where)
-    rep.floor("IRP-local", "assignments in templates", n_assign, 8)
+            for lin in (lins or [[]]):
+                ops = [it for it, _ in irp.flat_ops(lin)]
+                d = defines_of(T, ops)
+                if ("%s|%s" % (label, result[1])) not in verdicts:
+                    rep.ob("IRP-local", key, result in d, "the result temporary `%s` of %s is %s" % (
+                        result[1], label, "declared by %s" % d.get(result) if result in d else
+                        "not declared on every alternative of the template (a Lua global there: shared by all activations)"), where)
+    for key, (ok_, text_, where_) in sorted(verdicts.items()):
+        real_rep.ob("IRP-local", key, ok_, text_, where_)
+    real_rep.floor("IRP-local", "assignments in templates", n_assign, 8)
 
 
 def declaring_ops(F, rep, T):
